@@ -10,7 +10,7 @@ from . import treecheck
 
 ID = 'C06'
 LEVEL = 'model_checking'
-RULE = ('(ix) every body with 3 operators over the leaves {m(Vi), m(V1)} (thorough: plus o) in which the same goal m(V1) stands at several places; (viii) every body with 3 operators over the leaves {true, m(Vi)} (thorough: {true, m, z}) that contains true and one of ; -> \\+; ' '(i) every clause body tree with <= N operators from , ; -> \\+ over the 8 leaves {true fail ! z '
+RULE = ('(x) every body with 4 operators out of ; -> \\+ (no conjunction) over the leaves {o(Vi), z}; (ix) every body with 3 operators over the leaves {m(Vi), m(V1)} (thorough: plus o) in which the same goal m(V1) stands at several places; (viii) every body with 3 operators over the leaves {true, m(Vi)} (thorough: {true, m, z}) that contains true and one of ; -> \\+; ' '(i) every clause body tree with <= N operators from , ; -> \\+ over the 8 leaves {true fail ! z '
         'o(Vi) m(Vi) m(V1) k(Vi)} that uses at least one of ; -> \\+ (cuts only in transparent positions), in '
         'the context of C05, with and without a continuation goal m(W) after the construct; (ii) every '
         'unparenthesised body l1 op1 l2 .. opk lk+1 (k <= K, ops from , ; ->, every leaf from {z o m true} '
@@ -44,6 +44,7 @@ def plan(tier):
     sh += [('tfocus', k, 16) for k in range(16)]
     sh += [('truefocus', k, 32, tier) for k in range(32)]
     sh += [('sharedfocus', k, 32, tier) for k in range(32)]
+    sh += [('controlfocus', k, 32, tier) for k in range(32)]
     sh += [('seq', k, 16) for k in range(16)]
     if tier != 'quick':
         sh += [('spine', k, 256, 3, tier) for k in range(256)]
@@ -71,6 +72,8 @@ def run_shard(spec):
         return run_locals(spec)
     if spec[0] == 'long':
         return run_long(spec)
+    if spec[0] == 'controlfocus':
+        return run_controlfocus(spec)
     if spec[0] == 'sharedfocus':
         return run_sharedfocus(spec)
     if spec[0] == 'truefocus':
@@ -154,6 +157,24 @@ def run_truefocus(spec):
         if res['status'] == 'violation':
             res['sig'] = 'true-around-control-constructs:' + res['sig']
         account(acc, ('U', idx), case, res, key='%s truefocus' % bodies.show_tree(t))
+    return acc
+
+
+def run_controlfocus(spec):
+    """4 operators, none of them a conjunction, over the leaves {o(Vi), z}: control constructs nested in control
+    constructs three and four deep (conditions inside conditions, negations inside else-branches inside conditions)"""
+    _, k, n, tier = spec
+    acc = Acc()
+    for idx, t in enumerate(bodies.trees(4, ['o', 'z'])):
+        if idx % n != k:
+            continue
+        if ',' in bodies.ops_used(t) or select(t) is not None:
+            continue
+        case = treecheck.tree_case(t, continuation=True)
+        res = case.run()
+        if res['status'] == 'violation':
+            res['sig'] = 'nested-control-constructs:' + res['sig']
+        account(acc, ('N', idx), case, res, key='%s controlfocus' % bodies.show_tree(t))
     return acc
 
 
